@@ -13,7 +13,7 @@ DEMO="$D/demo.py"; [ -f "$DEMO" ] || DEMO="$(ls "$D"/demo* "$D"/test_* 2>/dev/nu
 run_demo() { (cd "$WT" && PYTHONPATH="$WT/src" timeout 600 /venv/bin/python "$DEMO" >/tmp/seedtry/demo.$$.log 2>&1); echo $?; }
 case "$DEMO" in *test_*) run_demo() { (cd "$WT" && PYTHONPATH="$WT/src" timeout 600 /venv/bin/python -m pytest -q -p no:cacheprovider "$DEMO" >/tmp/seedtry/demo.$$.log 2>&1); echo $?; } ;; esac
 echo "demo without change: exit $(run_demo)"
-(cd "$WT" && git apply "$D/patch.diff") || { echo "patch does not apply"; exit 2; }
+(cd "$WT" && (git apply "$D/patch.diff" 2>/dev/null || git apply -3 "$D/patch.diff" 2>/dev/null)) || { echo "patch does not apply"; exit 2; }
 echo "demo with change:    exit $(run_demo)"
 if [ "$SUITE" = "--suite" ]; then
   (cd "$WT" && PYTHONPATH="$WT/src" /venv/bin/python -m pytest -q -p no:cacheprovider -n 12 --timeout=900 2>&1 | tail -2)
